@@ -16,7 +16,9 @@ a small FAIL-CLOSED translator writes build/<id>/Gen_C01Tie.v:
   gen_save_*           `_recursive_save`: metadata key + fields, skip condition (skexp), skip lists threaded
   gen_load_*           `_recursive_load`: attribute metadata filter (sexp), name filter in each of the three loops,
                        exact-type filter, sub-group marker chain with per-branch type check, nested call threads the
-                       skip lists, container call does not, final delattr loop over skip_names with hasattr test
+                       skip lists, container call does not, final delattr loop over skip_names with hasattr test;
+                       EVERY `continue` of the scalar-attribute loop and of the arrays loop by kind (loop_filters): a
+                       type test on the normalised scalars, or any filter the model lacks, changes the constant
   gen_skipkeys_*       `save.write_skip_metadata` / `load`: root keys written and read, merge = union / user first
 
 The FIXED script coq/gen_proofs/C01_Tie_GenProofs.v proves each of them equal to what C01_Model.v assumes (for ALL
@@ -278,6 +280,54 @@ def name_filter(body, var):
                 and isinstance(st.body[0], ast.Continue) and not st.orelse:
             return True
     return False
+
+
+def loop_filters(loop, var):
+    """EVERY way out of one iteration of a loader loop: each `continue` (at any depth of the loop body, nested loops
+    excluded) must be the whole body of an `if` without else, and its test must be one of the known filter kinds; the
+    kinds are returned in source order.  A filter of a kind the model does not have in that loop (a type test in the
+    scalar loop, an isinstance test, ...) thereby changes the generated constant; a test outside the grammar rejects."""
+    kinds, n_cont = [], 0
+
+    def visit(stmts):
+        nonlocal n_cont
+        for st in stmts:
+            if isinstance(st, ast.Continue):
+                rej(st, "bare `continue` in a loader loop")
+            if isinstance(st, (ast.For, ast.While)):
+                if any(isinstance(n, (ast.Continue, ast.Break)) for n in ast.walk(st)):
+                    rej(st, "nested loop with continue / break inside a loader loop")
+                continue
+            if isinstance(st, ast.If) and st.body and isinstance(st.body[-1], ast.Continue):
+                if st.orelse or len(st.body) != 1:
+                    rej(st, "`continue` filter with an else branch or extra statements")
+                n_cont += 1
+                s = norm_src(st.test)
+                if s == "%s in skip_names" % var:
+                    kinds.append("name")
+                elif s == "attrs_item_names and %s not in attrs_item_names" % var:
+                    kinds.append("attrs-fields")
+                elif re.fullmatch(r"type\(\w+\) in skip_types", s):
+                    kinds.append("exact-type")
+                elif re.fullmatch(r"isinstance\(\w+, (tuple\()?skip_types\)?\)", s):
+                    kinds.append("isinstance-type")
+                else:
+                    try:
+                        sexp(st.test, var)
+                        kinds.append("meta")
+                    except Reject:
+                        rej(st, "loader-loop filter outside the grammar")
+                continue
+            for fld in ("body", "orelse", "finalbody"):
+                visit(getattr(st, fld, []) or [])
+            for h in getattr(st, "handlers", []) or []:
+                visit(h.body)
+            if isinstance(st, ast.Break) or isinstance(st, ast.Return):
+                rej(st, "break / return inside a loader loop")
+    visit(loop.body)
+    if n_cont != sum(isinstance(n, ast.Continue) for n in ast.walk(loop)):
+        rej(loop, "a `continue` of the loader loop is not of the form `if <filter>: continue`")
+    return kinds
 
 
 def loops_over(body, it_src):
@@ -547,6 +597,12 @@ def translate(src_root: Path = SRC):
     D.append(("gen_load_name_filters", "list bool", clist([cb(name_filter(la[0].body, avar)), cb(name_filter(lr[0].body, ast.unparse(lr[0].target))),
                                                           cb(name_filter(lg[0].body, ast.unparse(lg[0].target)))])))
     D.append(("gen_load_array_exact_type_filter", "bool", cb(has_type_check(lr[0].body))))
+    # EVERY `continue` of the scalar-attribute loop and of the arrays loop, by kind, in source order: the model filters
+    # scalars by metadata key / name / declared attrs field ONLY (never by type: the value in the file is the normalised
+    # one - a NumPy scalar has become a Python number - so a type test there is not the save-time instance test), and
+    # arrays by name and exact type
+    D.append(("gen_load_attr_loop_filters", "list string", clist(cs(k) for k in loop_filters(la[0], avar))))
+    D.append(("gen_load_array_loop_filters", "list string", clist(cs(k) for k in loop_filters(lr[0], ast.unparse(lr[0].target)))))
     ch = marker_chain(find_if_on(lg[0].body, "subgrp"), "subgrp")
     D.append(("gen_load_chain", "list (tkind * string * bool)", chain_term(ch)))
     nested = [(k, b) for _, k, _, b in ch if k == "_autoserialize"]
